@@ -34,6 +34,34 @@ def make_recorder(base: type, prefix: str, log: List[Any], with_context: bool, r
     return type("Recorder", (base,), ns)
 
 
+def generate_shadow(model: sc.Model, scratch: pathlib.Path) -> str:
+    """Generate (and discard) an SDK for the shadow of the model: classes -> constrained primitives of the same name."""
+    from harness import mm
+
+    parts = [mm.HEADER]
+    for e in model.raw["enums"]:
+        parts.append("class %s(Enum):\n" % e["name"]["src"] + "".join("    %s = %s\n" % (l["name"]["src"], sc.pystr(sc.s_of(l["val"]))) for l in e["lits"]))
+    root = model.root
+    for c in model.raw["classes"]:
+        if c["name"]["src"] != root:
+            parts.append("class %s(str, DBC):\n    pass\n" % c["name"]["src"])
+    props: Dict[str, str] = {}
+    for c in model.raw["classes"]:
+        for p in c["props"]:
+            t = sc.type_text(p["type"])
+            if root in t:
+                continue
+            props.setdefault(p["name"]["src"], "Optional[%s]" % t)
+    body = "class %s(DBC):\n" % root + "".join("    %s: %s\n" % kv for kv in props.items())
+    body += "\n    def __init__(self, %s) -> None:\n" % ", ".join("%s: %s = None" % kv for kv in props.items())
+    body += "".join("        self.%s = %s\n" % (k, k) for k in props) or "        pass\n"
+    parts.append(body)
+    parts.append('__version__ = "V1"\n__xml_namespace__ = %s\n' % sc.pystr(sc.NAMESPACE))
+    res = mm.generate_python_sdk("\n\n".join(parts), scratch)
+    mm.drop_sdk(res)
+    return "generated" if res["rc"] == 0 else "refused"
+
+
 def main() -> None:
     models_p, inst_p, out_p, scratch = sys.argv[1:5]
     core.assert_repo_bound()
@@ -49,9 +77,16 @@ def main() -> None:
         if not cases:
             continue
         model = sc.Model(entry["raw"])
-        sdk = sc.Sdk(model, pathlib.Path(scratch) / ("m%d" % mi))
+        # A generator may keep state between two generations in one process.  Before the model proper, a *shadow* of it is
+        # generated in this very process: the same property names and type names, but every class of the model is a constrained
+        # primitive there (same name, another kind).  Whatever is cached by names must not leak into the SDK under test.
+        shadow_outcome = generate_shadow(model, pathlib.Path(scratch) / ("shadow%d" % mi))
+        # in two of the hierarchies the class Leaf is implementation-specific (emitted from its snippet, which is the class as
+        # the generator writes it): traversal and dispatch must not depend on where the text of a class comes from
+        impl = ["Leaf"] if model.id in ("hier", "diamond") else []
+        sdk = sc.Sdk(model, pathlib.Path(scratch) / ("m%d" % mi), impl=impl, need=["types"])
         for c in cases:
-            rec: Dict[str, Any] = {"mi": mi, "pa": entry["pa"], "pb": entry["pb"], "mid": model.id, "x": c["x"], "sdk": sdk.ok, "built": False, "nodes": [], "walk": [], "detail": ""}
+            rec: Dict[str, Any] = {"mi": mi, "pa": entry["pa"], "pb": entry["pb"], "mid": model.id, "x": c["x"], "sdk": sdk.ok, "built": False, "nodes": [], "walk": [], "detail": "", "shadow": shadow_outcome}
             out.append(rec)
             if not sdk.ok:
                 rec["detail"] = sdk.why_not_ok()[:400]
